@@ -526,6 +526,16 @@ func init() {
 	execThrough["github.com/cosmos/ibc-go/v3/modules/core/04-channel/types.NewErrorAcknowledgement"] = true
 	execThrough["github.com/cosmos/ibc-go/v3/modules/core/04-channel/types.NewResultAcknowledgement"] = true
 	execThrough["(github.com/cosmos/ibc-go/v3/modules/core/04-channel/types.Acknowledgement).Success"] = true
+	// gogo-proto enum names (used for labels and String methods): an uninterpreted text of the number
+	models["github.com/gogo/protobuf/proto.EnumName"] = func(it *Interp, a []Val) Val {
+		var leaves []*Term
+		if !it.flatten(a[1], &leaves) || len(leaves) != 1 {
+			it.fail("proto.EnumName: unexpected argument")
+		}
+		t := App("protoenumname", SStr, leaves[0])
+		it.strLenTerm(t)
+		return &StrV{T: t}
+	}
 	execThrough[sdkT+".NewIntFromString"] = true
 }
 
